@@ -90,11 +90,13 @@ def base_config(rng, nshards=None, probe=False):
         shards.append({"key": str(i), "database": "d%d" % i, "servers": svs, "mirrors": None})
     users = [{"key": "0", "username": "u", "password": "pw", "pool_size": rng.choice([1, 5, 20]), "min_pool_size": None,
               "connect_timeout": None, "idle_timeout": None, "server_lifetime": None,
-              "pool_mode": rng.choice([None, None, "transaction", "session"]), "statement_timeout": rng.choice([None, 0, 77])}]
+              "pool_mode": rng.choice([None, None, "transaction", "session"]), "statement_timeout": rng.choice([None, 0, 77]),
+              "auth_type": rng.choice([None, None, "md5", "trust"]), "server_username": rng.choice([None, None, "su"]), "server_password": rng.choice([None, None, "sp"])}]
     if rng.random() < 0.4:
         users.append({"key": "1", "username": "v", "password": "pw2", "pool_size": rng.choice([1, 3, U32]), "min_pool_size": rng.choice([None, 0, 1]),
                       "connect_timeout": None, "idle_timeout": None, "server_lifetime": rng.choice([None, 7000]),
-                      "pool_mode": rng.choice([None, "transaction", "session"]), "statement_timeout": rng.choice([None, 1500])})
+                      "pool_mode": rng.choice([None, "transaction", "session"]), "statement_timeout": rng.choice([None, 1500]),
+                      "auth_type": rng.choice([None, "md5", "trust"]), "server_username": rng.choice([None, "su2"]), "server_password": rng.choice([None, "sp2"])})
     pool = {"name": "db", "default_role": rng.choice([None, "any", "primary", "replica"]),
             "default_shard": rng.choice([None, None, "shard_0", "shard_%d" % (n - 1), "random", "random_healthy"]),
             "parser": rng.random() < 0.5, "rw_split": False, "plugins": None, "auto_key": None,
@@ -214,6 +216,12 @@ def m_servers(style):
             s["mirrors"] = [["127.0.0.8", 7, rng.randrange(len(s["servers"]))], ["127.0.0.8", 8, 0]]
         elif style == "mirrors_out":
             s["mirrors"] = [["127.0.0.8", 7, len(s["servers"]) + rng.randrange(3)]]
+        elif style == "single_mirror_role":    # a shard with exactly one server, and that one has the mirror role
+            s["servers"] = [[s["servers"][0][0], s["servers"][0][1], "mirror"]]
+        elif style == "single_mirror_out":     # a shard with exactly one server and a mirror that follows none
+            s["servers"] = s["servers"][:1]; s["mirrors"] = [["127.0.0.8", 7, 1]]
+        elif style == "single_mirror_in":
+            s["servers"] = s["servers"][:1]; s["mirrors"] = [["127.0.0.8", 7, 0]]
         elif style == "mirrors_empty":
             s["mirrors"] = []
         elif style == "mirrors_bad":
@@ -250,6 +258,17 @@ def m_user(style):
             p["server_lifetime"] = rng.choice([None, 4444]); p["idle_timeout"] = rng.choice([None, 3333]); p["pool_mode"] = rng.choice([None, "transaction", "session"])
         elif style == "statement_timeout_bad":
             u["statement_timeout"] = -1
+        elif style == "trust_no_password":
+            u["auth_type"] = "trust"; u["password"] = None
+            u["server_username"], u["server_password"] = rng.choice([(None, None), ("su", "sp"), (None, "sp")])
+        elif style == "trust_password":
+            u["auth_type"] = "trust"
+        elif style == "server_creds":
+            u["server_username"], u["server_password"] = rng.choice([("su", "sp"), (None, "sp"), ("su", None)])
+        elif style == "server_creds_no_password":
+            u["password"] = None; u["server_username"] = "su"; u["server_password"] = "sp"
+        elif style == "auth_type_bad":
+            u["auth_type"] = rng.choice(["scram", "TRUST", "password", ""])
         elif style == "no_username":
             u["username"] = None
     return f
@@ -260,6 +279,10 @@ def m_pool(style):
         p = _p(cfg, rng); n = len(p["shards"])
         if style == "ds_out":
             p["default_shard"] = "shard_%d" % (n + rng.randrange(3))
+        elif style == "ds_out_exact":          # the first number that is out of range
+            p["default_shard"] = "shard_%d" % n
+        elif style == "ds_last":
+            p["default_shard"] = "shard_%d" % (n - 1)
         elif style == "ds_spelling":
             p["default_shard"] = rng.choice(["shard_+0", "shard_00", "shard_0%d" % (n - 1)])
         elif style == "ds_garbage":
@@ -345,19 +368,21 @@ def m_general(style):
 MUTATIONS = ([("keys:" + s, m_keys(s)) for s in ["gap", "not_from_0", "dup_after_parse", "non_numeric", "negative", "plus", "leading_zero", "empty", "space",
                                                    "unicode_digit", "huge", "zero_shards", "plus_plus"]] +
              [("servers:" + s, m_servers(s)) for s in ["two_primaries", "duplicate", "same_host_other_role", "zero_servers", "mirror_role", "bad_role", "cap_role",
-                                                       "port_edge", "port_bad", "mirrors_in", "mirrors_out", "mirrors_empty", "mirrors_bad"]] +
+                                                       "port_edge", "port_bad", "mirrors_in", "mirrors_out", "mirrors_empty", "mirrors_bad",
+                                                       "single_mirror_role", "single_mirror_out", "single_mirror_in"]] +
              [("user:" + s, m_user(s)) for s in ["size0", "size_max", "size_bad", "min_eq", "min_gt", "no_password", "dup_username", "no_users", "timeout0",
-                                                 "timeout_small", "no_username", "overrides", "statement_timeout_bad"]] +
+                                                 "timeout_small", "no_username", "overrides", "statement_timeout_bad", "trust_no_password", "trust_password",
+                                                 "server_creds", "server_creds_no_password", "auth_type_bad"]] +
              [("pool:" + s, m_pool(s)) for s in ["ds_out", "ds_spelling", "ds_garbage", "role_bad", "timeout0", "timeout_set", "rw_no_parser", "plugins_no_parser",
                                                  "plugins_parser", "auto_key", "regex_bad", "regex_good", "auth_full", "auth_partial", "auth_no_query",
                                                  "activity_ok", "activity_zero", "activity_off_zero", "no_shards_table", "no_users_table",
-                                                 "plugins_both", "plugins_global_only", "pool_mode", "pool_mode_bad"]] +
+                                                 "plugins_both", "plugins_global_only", "pool_mode", "pool_mode_bad", "ds_out_exact", "ds_last"]] +
              [("general:" + s, m_general(s)) for s in ["timeout0", "auth_full", "auth_partial", "auth_split", "second_pool"]])
 
 
 BENIGN_NAMES = {"keys:plus", "keys:leading_zero", "servers:same_host_other_role", "servers:cap_role", "servers:port_edge", "servers:mirrors_in",
                 "servers:mirrors_empty", "user:size_max", "user:min_eq", "user:dup_username", "user:timeout_small", "pool:ds_spelling", "pool:timeout_set", "pool:plugins_parser",
-                "pool:auto_key", "pool:plugins_both", "pool:plugins_global_only", "pool:pool_mode", "user:overrides", "pool:regex_good", "pool:auth_full", "pool:auth_no_query", "pool:activity_ok", "pool:activity_off_zero", "general:auth_full", "general:auth_split",
+                "pool:auto_key", "pool:plugins_both", "pool:plugins_global_only", "pool:pool_mode", "user:overrides", "user:trust_password", "user:server_creds", "pool:ds_last", "servers:single_mirror_in", "pool:regex_good", "pool:auth_full", "pool:auth_no_query", "pool:activity_ok", "pool:activity_off_zero", "general:auth_full", "general:auth_split",
                 "general:second_pool"}
 BENIGN = [m for m in MUTATIONS if m[0] in BENIGN_NAMES]
 
@@ -448,6 +473,9 @@ def to_toml(cfg):
                         out.append("%s = %d" % (k, u[k]))
                 if u["pool_mode"] is not None:
                     out.append("pool_mode = %s" % tstr(u["pool_mode"]))
+                for k in ("auth_type", "server_username", "server_password"):
+                    if u[k] is not None:
+                        out.append("%s = %s" % (k, tstr(u[k])))
         if p["shards"] is not None:
             out.append("[pools.%s.shards]" % pn)
             for s in p["shards"]:
@@ -472,6 +500,8 @@ def typed(cfg):
             if u["statement_timeout"] is not None and u["statement_timeout"] < 0:
                 return False
             if u["pool_mode"] not in (None, "transaction", "session"):
+                return False
+            if u["auth_type"] not in (None, "md5", "MD5", "trust", "Trust"):
                 return False
         if p["pool_mode"] not in (None, "transaction", "session"):
             return False
@@ -526,9 +556,10 @@ def to_coq(cfg, regex_ok):
             cs(s["key"]),
             "; ".join("{| sv_host := %s; sv_port := %d; sv_role := %s |}" % (cs(h), pt, ROLE_T[r]) for h, pt, r in s["servers"]),
             "; ".join("{| mi_host := %s; mi_port := %d; mi_target := %d |}" % (cs(h), pt, ix) for h, pt, ix in (s["mirrors"] or []))) for s in shards) + "]"
-        us_c = "[" + "; ".join("(%s, {| u_name := %s; u_password := %s; u_pool_size := %d; u_min_pool_size := %s; u_connect_timeout := %s; u_idle_timeout := %s; u_server_lifetime := %s; u_pool_mode := %s; u_statement_timeout := %d |})" % (
+        us_c = "[" + "; ".join("(%s, {| u_name := %s; u_password := %s; u_pool_size := %d; u_min_pool_size := %s; u_connect_timeout := %s; u_idle_timeout := %s; u_server_lifetime := %s; u_pool_mode := %s; u_statement_timeout := %d; u_auth_type := %s; u_server_username := %s; u_server_password := %s |})" % (
             cs(u["key"]), cs(u["username"]), cb(u["password"] is not None), u["pool_size"], copt(u["min_pool_size"], cz), copt(u["connect_timeout"], cz),
-            copt(u["idle_timeout"], cz), copt(u["server_lifetime"], cz), copt(u["pool_mode"], cmode), u["statement_timeout"] or 0) for u in users) + "]"
+            copt(u["idle_timeout"], cz), copt(u["server_lifetime"], cz), copt(u["pool_mode"], cmode), u["statement_timeout"] or 0,
+            "AuthTrust" if (u["auth_type"] or "md5").lower() == "trust" else "AuthMD5", cb(u["server_username"] is not None), cb(u["server_password"] is not None)) for u in users) + "]"
         a = p["activity"] or [False, 100, 900, 50]
         pools.append("{| p_name := %s; p_default_role := %s; p_default_shard := nth %d ds (DShard 0); p_parser := %s; p_rw_split := %s; p_plugins := %s; p_pool_mode := %s; "
                      "p_auto_key := %s; p_key_regex := %s; p_shard_regex := %s; p_auth_query := %s; p_auth_user := %s; p_auth_password := %s; "
@@ -624,6 +655,7 @@ def monitor(cfg, r):
                            "plugins": None if eff_pl is None else {"table_access": None if eff_pl["table_access"] is None else (eff_pl["table_access"][0], list(eff_pl["table_access"][1])),
                                                                    "query_logger": eff_pl["query_logger"], "other_sections": []},
                            "user": (u["username"], u["pool_size"], u["min_pool_size"], u["pool_mode"], u["statement_timeout"] or 0, u["connect_timeout"], u["idle_timeout"], u["server_lifetime"]),
+                           "credentials": ((u["auth_type"] or "md5").lower(), u["password"] is not None, u["server_username"] is not None, u["server_password"] is not None),
                            "auto_key": None if cp["auto_key"] is None else cp["auto_key"].replace('"', ""), "parser": cp["parser"], "rw": cp["rw_split"]}
                 for k in want_st:
                     if st[k] != want_st[k]:
@@ -633,8 +665,16 @@ def monitor(cfg, r):
                 for k, v in list(cp["extra"].items()) + list(cfg["general"]["extra"].items()):
                     if raw.get(k) != names.get(v, v):
                         bad.append("settings.%s of %s/%s is %r, the file says %r" % (k, bp["db"], bp["user"], raw.get(k), v))
-                if raw["user"]["password"] != u["password"] or raw["db"] != cp["name"]:
+                if raw["user"]["password"] != u["password"] or raw["db"] != cp["name"] or raw["user"]["server_password"] != u["server_password"] \
+                        or raw["user"]["server_username"] != u["server_username"]:
                     bad.append("settings.user/db of %s/%s belong to another section" % (bp["db"], bp["user"]))
+            # credentials (the property's "missing credentials"): the pool must have a secret to present to a server that asks
+            # for one, whatever auth_type says about the client side
+            ru = bp["settings"]["user"]
+            aq = all(bp["settings"][k] is not None for k in ("auth_query", "auth_query_user", "auth_query_password"))
+            if ru["server_password"] is None and ru["password"] is None and not aq:
+                bad.append("pool %s/%s (auth_type %s) has no credentials for its servers: no server_password, no password, auth_query not configured" % (
+                    bp["db"], bp["user"], ru["auth_type"]))
     for cmd, v in (r.get("admin") or {}).items():
         if "panic" in v:
             bad.append("admin %s panicked: %s" % (cmd, v["panic"]))
@@ -669,6 +709,7 @@ def impl_settings(st):
                                                 "query_logger": None if pl["query_logger"] is None else pl["query_logger"]["enabled"],
                                                 "other_sections": [k for k in ("intercept", "prewarmer") if pl.get(k) is not None]},
             "user": (u["username"], u["pool_size"], u["min_pool_size"], u["pool_mode"], u["statement_timeout"], u["connect_timeout"], u["idle_timeout"], u["server_lifetime"]),
+            "credentials": (u["auth_type"].lower(), u["password"] is not None, u["server_username"] is not None, u["server_password"] is not None),
             "auto_key": st["automatic_sharding_key"], "parser": st["query_parser_enabled"], "rw": st["query_parser_read_write_splitting"]}
 
 
@@ -682,10 +723,11 @@ def opt(x, f=lambda v: v):
 
 
 def model_settings(t):
-    mode, plug, (name, size, mn, (umode, stmt), (ct, it, lt)), (ak, parser, rw), bb8 = t
+    mode, plug, (name, size, mn, (umode, stmt), (ct, it, lt), (aty, pw, sun, spw)), (ak, parser, rw), bb8 = t
     return ({"pool_mode": ident(mode).lower(),
              "plugins": opt(plug, lambda pq: {"table_access": opt(pq[0], lambda ta: (ta[0], [bstr(x) for x in ta[1]])), "query_logger": opt(pq[1]), "other_sections": []}),
              "user": (bstr(name), size, opt(mn), opt(umode, lambda m: m.lower()), stmt, opt(ct), opt(it), opt(lt)),
+             "credentials": ({"AuthMD5": "md5", "AuthTrust": "trust"}[ident(aty)], pw, sun, spw),
              "auto_key": opt(ak, bstr), "parser": parser, "rw": rw},
             opt(bb8, lambda b: {"max_size": b[0], "min_idle": opt(b[1]), "connect_timeout": b[2][0], "idle_timeout": b[2][1], "max_lifetime": b[2][2]}))
 
@@ -739,6 +781,11 @@ CORPUS = [
     ("D7 tls pair swapped (key file holds no private key)", _G + 'tls_certificate = %s\ntls_private_key = %s\n' % (json.dumps(KEY), json.dumps(CERT)) + "[pools.db]\n" + _U + _S0, False),
     ("D7 tls_private_key = the certificate file", _G + 'tls_certificate = %s\ntls_private_key = %s\n' % (json.dumps(CERT), json.dumps(CERT)) + "[pools.db]\n" + _U + _S0, False),
     ("D7 tls_certificate = the key file", _G + 'tls_certificate = %s\ntls_private_key = %s\n' % (json.dumps(KEY), json.dumps(KEY)) + "[pools.db]\n" + _U + _S0, False),
+    ("trust user without password, server_password or auth_query", _G + "[pools.db]\n" + '[pools.db.users.0]\nusername = "u"\nauth_type = "trust"\npool_size = 5\n' + _S0, False),
+    ("md5 user without password", _G + "[pools.db]\n" + '[pools.db.users.0]\nusername = "u"\npool_size = 5\n' + _S0, False),
+    ("trust user without password, auth_query fully configured in [general]", _G + 'auth_query = "SELECT 1"\nauth_query_user = "a"\nauth_query_password = "b"\n[pools.db]\n'
+     + '[pools.db.users.0]\nusername = "u"\nauth_type = "trust"\npool_size = 5\n' + _S0, True),
+    ("trust user with password and server credentials", _G + "[pools.db]\n" + _U + 'auth_type = "trust"\nserver_username = "su"\nserver_password = "sp"\n' + _S0, True),
     ("tls_certificate without tls_private_key", _G + 'tls_certificate = %s\n' % json.dumps(CERT) + "[pools.db]\n" + _U + _S0, False),
     ("D6 auth_query_user/password without auth_query (pool)", _G + '[pools.db]\nauth_query_user = "a"\nauth_query_password = "b"\n' + _U + _S0, True),
     ("D6 auth_query_user/password without auth_query ([general])", _G + 'auth_query_user = "a"\nauth_query_password = "b"\n[pools.db]\n' + _U + _S0, True),
@@ -793,6 +840,22 @@ def gen_cases(rng, nrand):
             cases.append(([name, "tls:pair"], c2))
     for n in (1, 2, 3, 4):
         cases.append(([], base_config(rng, nshards=n)))
+    # credentials: auth_type x password x server credentials x where auth_query is configured
+    for aty in (None, "md5", "trust"):
+        for pw in ("pw", None):
+            for su, sp in ((None, None), ("su", "sp"), (None, "sp")):
+                for aq in ("none", "pool", "general", "pool_no_query", "split"):
+                    c = base_config(rng, nshards=1)
+                    p = c["pools"][0]; p["users"] = p["users"][:1]
+                    u = p["users"][0]; u["auth_type"] = aty; u["password"] = pw; u["server_username"] = su; u["server_password"] = sp
+                    tgt = {"pool": p, "pool_no_query": p, "general": c["general"]}.get(aq)
+                    if tgt is not None:
+                        tgt["auth_query_user"] = "a"; tgt["auth_query_password"] = "b"
+                        if aq != "pool_no_query":
+                            tgt["auth_query"] = "SELECT 1"
+                    if aq == "split":
+                        p["auth_query"] = "SELECT 1"; c["general"]["auth_query_user"] = "a"; c["general"]["auth_query_password"] = "b"
+                    cases.append((["cred:%s/%s/%s/%s" % (aty or "absent", "password" if pw else "no_password", "server_creds" if sp else "no_server_creds", aq)], c))
     for tname, _, _ in TLS_OPTIONS:
         for n in (1, 3):
             c = base_config(rng, nshards=n)
@@ -834,7 +897,7 @@ def check(run):
     quick = run.tier == "quick"
     rng = run.rng
     run.assumptions += [
-        "Coq 8.16.1 kernel + vm_compute; no axioms (Print Assumptions: closed under the global context for all 34 theorems)",
+        "Coq 8.16.1 kernel + vm_compute; no axioms (Print Assumptions: closed under the global context for all 36 theorems)",
         "coq/Config/Model.v is a hand transcription of Config/Pool/Shard/User::validate, the DefaultShard deserialiser, fill_up_auth_query_config, from_config's construction "
         "and the index operations of pool.rs/admin.rs (validated each run against the real code on the generated files)",
         "toml 0.7 + serde derive (types, required fields, Role aliases) and the regex crate's verdict on a pattern are environment: the model starts from the typed structs "
